@@ -109,8 +109,8 @@ Definition one_answer_b (es : list event) : bool :=
    (in order) and the waiters of the block being sent, and checks
    - ESend: the block is exactly the column-wise concatenation of what ProcessRequest appends for the accepted
      requests, in order, and of nothing else (C02: block_carries_its_waiters; with well-formed requests this is
-     the table of their rows, blocks_good) -- checked when strict; a request that appended cells although
-     nothing was `inserted` stays in the buffers and breaks this, see bad_request_poisons_batch;
+     the table of their rows, blocks_good) -- see smode; a request that appended cells although nothing was
+     `inserted` stays in the buffers and breaks this, see bad_request_poisons_batch;
    - EResolve: a promise is completed either by Request itself (only as reported by EReq: nothing inserted, or
      service stopped) or in the burst that follows the EDone of the block it waits for, with that Do's outcome
      (C01: promise_resolved_with_its_block). *)
@@ -136,28 +136,51 @@ Fixpoint remove_waiter (p : pid) (r : req) (ws : list (pid * req)) : option (lis
       else match remove_waiter p r t with Some t' => Some ((q, r') :: t') | None => None end
   end.
 
-Definition smon_step (strict : bool) (m : smon) (e : event) : option smon :=
+(* how much the monitor demands of a block:
+   MLenient: nothing (arbitrary requests: only the promise discipline is checked);
+   MClean  : the block is the column-wise concatenation of its waiters' appends (requests whose empty key column
+             means no cell at all);
+   MTable  : the block is the table of its waiters' rows, in order (well-formed requests). *)
+Inductive smode := MLenient | MClean | MTable.
+Definition strict_of (md : smode) : bool := match md with MLenient => false | _ => true end.
+Definition rows_of (ws : list (pid * req)) : list N := concat (map (fun pr => rids_of (snd pr)) ws).
+Definition send_ok (md : smode) (k : kind) (ws : list (pid * req)) (b : block) : bool :=
+  match md with
+  | MLenient => true
+  | MClean => block_eqb b (expected_block k ws)
+  | MTable => block_eqb b (table_of (ncols k) (rows_of ws))
+  end.
+
+Definition smon_step (md : smode) (m : smon) (e : event) : option smon :=
   match e with
   | EReq s p k r sz imm =>
-      match nth_error (s_w m) s, eff k r with
-      | Some w, Some r' =>
+      match nth_error (s_w m) s with
+      | None => None
+      | Some w =>
           match imm with
+          | Some false => Some {| s_w := s_w m; s_rel := None; s_imm := Some (p, false) |}   (* service stopped *)
           | Some true =>
-              if trivial strict k r' then Some {| s_w := s_w m; s_rel := None; s_imm := Some (p, true) |} else None
-          | Some false => Some {| s_w := s_w m; s_rel := None; s_imm := Some (p, false) |}
+              match eff k r with
+              | Some r' => if trivial (strict_of md) k r'
+                           then Some {| s_w := s_w m; s_rel := None; s_imm := Some (p, true) |} else None
+              | None => None
+              end
           | None =>
-              if key_empty k r' then None
-              else Some {| s_w := upd s {| w_open := w_open w ++ [(p, r)]; w_infl := w_infl w |} (s_w m);
-                           s_rel := None; s_imm := None |}
+              match eff k r with
+              | Some r' =>
+                  if key_empty k r' then None
+                  else Some {| s_w := upd s {| w_open := w_open w ++ [(p, r)]; w_infl := w_infl w |} (s_w m);
+                               s_rel := None; s_imm := None |}
+              | None => None
+              end
           end
-      | _, _ => None
       end
   | ESend s k b =>
       match nth_error (s_w m) s with
       | Some w =>
           match w_infl w, w_open w with
           | None, _ :: _ =>
-              if (if strict then block_eqb b (expected_block k (w_open w)) else true)
+              if send_ok md k (w_open w) b
               then Some {| s_w := upd s {| w_open := []; w_infl := Some (w_open w) |} (s_w m);
                            s_rel := None; s_imm := None |}
               else None
